@@ -588,6 +588,23 @@ def _model_case(txt, r):
             exp.append("ROk" if t["res"] == "ROk" else "RErr")
     return "  ([%s],\n   [%s],\n   [%s]%%nat,\n   [%s])" % ("; ".join(setup), "; ".join(calls), "; ".join(map(str, sched)), "; ".join(exp))
 
+def _orphan_relocation_scenario(rng):
+    """A Put of a NEW key has appended its record and is parked before it inserts the index entry; another caller's Flush writes the record
+    into a primary file that is then non-current and low-use (its big first record was removed); a primary GC cycle tries to relocate the
+    record the index does not name yet (its compare-and-swap must fail and must free ONLY the copy); then the Put publishes the location."""
+    B, K, F = "120607070701010a", "120607070702020b", "120607070703030c"
+    big = rng.choice((74, 76, 80))
+    setup = ["setup put %s %s" % (B, "62" * big), "setup flush", "setup remove %s" % B, "setup flush"]
+    th = [("T0", "put %s %s" % (K, "6b" * 10)), ("T1", "put %s %s" % (F, "66" * rng.randint(4, 12))), ("F1", "flush"), ("G1", "pgc %d" % rng.choice((25, 50, 60)))]
+    if rng.random() < 0.4:
+        th.append(("T2", "get %s" % K))
+    names = [t[0] for t in th]
+    sched = ["T0"] * 3 + ["T1"] * 8 + ["F1"] * 12 + ["G1"] * 14
+    if rng.random() < 0.3:
+        sched = ["T0"] * 3 + [rng.choice(names[1:]) for _ in range(rng.randint(10, 40))] + ["T1"] * 8 + ["F1"] * 12 + ["G1"] * 14
+    return "cfg bits=8 imax=1048576 pmax=100 timeout_ms=3000\n" + "\n".join(setup) + "\n" + "".join("thread %s %s\n" % t for t in th) + \
+           "schedule " + " ".join(sched + ["T0"] * 6) + "\n"
+
 def _gc_model_case(txt, r):
     """Translate a finished run of a gcmodel=<nsup> scenario (a caller or two on K next to one primary GC cycle that relocates K's first record)
     into a case of ConcGC.gc_case: abstract keys, values and locations; the observed events become 'run thread t until it has done X'."""
@@ -708,6 +725,9 @@ def _conc_scenarios(rng, n, gc):
             scen.append("cfg bits=8 imax=%d pmax=1048576 timeout_ms=3000\n" % rng.choice((40, 52, 64)) + "\n".join(setup) + "\n" +
                         "".join("thread %s %s\n" % t for t in th) + "schedule " + " ".join(sched) + "\n")
             continue
+        if gc and fam < 0.64:
+            scen.append(_orphan_relocation_scenario(rng))
+            continue
         if gc and fam < 0.7:
             # reader across overwrite + flush + primary GC: a call looks K up in the index and parks before it reads the primary; K is
             # overwritten (or removed), the change is flushed, a primary cycle reclaims the old record (marks it; truncates its file when the
@@ -748,7 +768,9 @@ def _conc_scenarios(rng, n, gc):
             if rng.random() < 0.3:
                 names = [t[0] for t in th]
                 sched = ["T0"] + [rng.choice(names[1:]) for _ in range(rng.randint(10, 40))] + ["T1"] * 8 + ["F1"] * 12 + ["G1"] * 14
-            scen.append("cfg bits=8 imax=%d pmax=1048576 timeout_ms=3000\n" % rng.choice((40, 52, 64)) + "\n".join(setup) + "\n" +
+            # limits of 16 / 20 bytes: every record list starts a file of its own, so the superseded list and its successor have the SAME local
+            # offset in different files (a retry that compares offsets only does not notice that the bucket has moved)
+            scen.append("cfg bits=8 imax=%d pmax=1048576 timeout_ms=3000\n" % rng.choice((16, 20, 40, 52, 64)) + "\n".join(setup) + "\n" +
                         "".join("thread %s %s\n" % t for t in th) + "schedule " + " ".join(sched + ["T0"] * 6) + "\n")
             continue
         pool = MKEYS if (gc and rng.random() < 0.5) else CKEYS
@@ -835,7 +857,8 @@ def _lin_check(ctx, gc):
         else:
             bad = lin.check(setup, r["threads"], r["final"], imm)
             if bad is None:
-                for nm2, ff in (("after two further flushes", r.get("final_flushed") or {}), ("after Close and reopen by rescan", r.get("final_reopened") or {})):
+                for nm2, ff in (("after two further flushes", r.get("final_flushed") or {}), ("after Close and reopen by rescan", r.get("final_reopened") or {}),
+                                ("after two further primary GC cycles on the reopened store", r.get("final_collected") or {})):
                     for kh, v in ff.items():
                         if kh in r["final"] and v != r["final"][kh]:
                             bad = "contents changed %s: Get(%s) was %s, now %s" % (nm2, kh, r["final"][kh], v)
@@ -1286,6 +1309,23 @@ def _c13_scenarios(rng, n):
     scen = []
     vals = ["61", "6262", "636363", "6464646464646464"]
     for _ in range(n):
+        if rng.random() < 0.15:
+            scen.append(_orphan_relocation_scenario(rng))
+            continue
+        if rng.random() < 0.18:
+            # a location is freed while a Flush stands between taking the freelist entries off the pool and writing them
+            ks = rng.sample(CKEYS, 3)
+            setup = ["setup put %s %s" % (k, rng.choice(vals)) for k in ks] + ["setup flush"]
+            th = [("T0", rng.choice(("put %s 7a7a" % ks[0], "remove %s" % ks[0]))), ("F1", "flush"),
+                  ("T1", rng.choice(("put %s 7b7b7b" % ks[1], "remove %s" % ks[1])))]
+            if rng.random() < 0.5:
+                th.append(("T2", rng.choice(("put %s 7c" % ks[2], "remove %s" % ks[2]))))
+            sched = ["T0"] * 8 + ["F1"] * 4 + ["T1"] * 8 + (["T2"] * 8 if len(th) > 3 else []) + ["F1"] * 4
+            if rng.random() < 0.3:
+                sched = ["T0"] * 8 + ["F1"] * rng.randint(1, 5) + [rng.choice([t[0] for t in th]) for _ in range(rng.randint(6, 30))]
+            scen.append("cfg bits=8 imax=1048576 pmax=1048576 timeout_ms=3000\n" + "\n".join(setup) + "\n" +
+                        "".join("thread %s %s\n" % t for t in th) + "schedule " + " ".join(sched) + "\n")
+            continue
         if rng.random() < 0.5:
             # a writer of K overlaps the relocation of K's record out of a low-use primary file
             K = "1206070707090909"
@@ -1361,7 +1401,8 @@ def _c13_conc(ctx):
             viol.append(("schedule: " + bad, rp, True))
     return viol, {"evaluations": len(scen), "distinct_nontrivial": superseding, "concurrent_scenarios_judged_by_the_freelist_census": judged,
                   "samples": [{"scenario": scen[-1].strip().split("\n")}],
-                  "concurrency_rule": "a writer of K overlapping the relocation of K's record by a primary GC cycle, or 2-3 writers of one key (Put/Remove), stepped through the "
+                  "concurrency_rule": "a writer of K overlapping the relocation of K's record by a primary GC cycle, a Put of a new key whose record a cycle tries to relocate before it is indexed, "
+                                      "a free that arrives while a Flush writes the freelist, or 2-3 writers of one key (Put/Remove), stepped through the "
                                       "yield points in a random order; after the end, two flushes, Close and reopen the real files are read: freelist entries distinct, none current, "
                                       "every live primary record current or on the freelist; non-trivial = at least one location was superseded"}
 
